@@ -354,6 +354,7 @@ class C23(core.Check):
         for i, hs in enumerate(hashseeds):
             configs.append((hs, histories[i % len(histories)]))
         configs.append(('0', 'twice'))
+        configs.append(('0', 'emit_midway'))
         procs = []
         env0 = dict(os.environ)
         for hs, hist in configs:
